@@ -8,7 +8,7 @@ import itertools, json
 import gen, lang, meta, findings
 
 PROP_FILE = 'Props/C07.v'
-GROUPS = ['tables']
+GROUPS = ['tables', 'bodyform']
 LEAF_LEMMAS = ['parse_respects', 'parse_flat']
 ASSUMPTIONS = ['gringo parses theory terms by operator precedence with the table of the #theory definition (tested here for every pair/triple)',
                'the documented table is the constant Spec/DocTables.v, copied once from the commented theory definition / property text']
